@@ -77,6 +77,12 @@ Eval(a, sh, wb) ==
                    [c \in 1..(a.c2 - a.c1 + 1) |-> EvalCell(wb, s2, a.c1 + c - 1, a.r1 + r - 1)]])
       \* (a name spelt in another letter case than its definition: Excel's names are case-insensitive, the library's
       \* lookup is not - no listed property fixes the value: Open; models of the same workbook must still agree on it)
+      \* whole rows: every cell of the rows; cells beyond the last used column are blank and take no part in any aggregate
+      [] a.k = "rows" ->
+            LET s2 == IF a.sheet = "" THEN sh ELSE a.sheet
+                used == {k[2] : k \in {k \in DOMAIN wb.cells : k[1] = s2}} \cup {1}
+                w == CHOOSE c \in used : \A d \in used : d <= c
+            IN Arr([r \in 1..(a.r2 - a.r1 + 1) |-> [c \in 1..w |-> EvalCell(wb, s2, c, a.r1 + r - 1)]])
       [] a.k = "name" -> IF a.v \in DOMAIN wb.names THEN Eval(wb.names[a.v], sh, wb)
                          ELSE IF \E n \in DOMAIN wb.names : SameNameIgnoringCase(n, a.v) THEN Open
                          ELSE Err("#NAME?")
